@@ -96,7 +96,11 @@ impl ShardingPartialEncoder {
 
 impl ArrayPartialEncoderTraits for ShardingPartialEncoder {
     fn erase(&self) -> Result<(), super::CodecError> {
-        self.output_handle.erase()
+        // The cached shard index must follow the stored shard: an erased shard has no inner chunks
+        let mut shard_index = self.shard_index.lock().unwrap();
+        self.output_handle.erase()?;
+        shard_index.fill(u64::MAX);
+        Ok(())
     }
 
     #[allow(clippy::too_many_lines)]
